@@ -103,6 +103,24 @@ func (t *decTr) stmt(s ast.Stmt) string {
 				return out
 			}
 		}
+		// `v, ok := m[k]`: ok is assigned "ok of <m[k]>", v (unless blank) the lookup's text
+		if len(x.Lhs) == 2 && len(x.Rhs) == 1 {
+			if ix, ok := x.Rhs[0].(*ast.IndexExpr); ok {
+				out := ""
+				if id, isId := x.Lhs[0].(*ast.Ident); !isId || id.Name != "_" {
+					out = "DAssign " + q(t.render(x.Lhs[0])) + " " + q(t.render(ix)) + "; "
+				}
+				return out + "DAssign " + q(t.render(x.Lhs[1])) + " " + q("ok of "+t.render(ix))
+			}
+		}
+		// `a, b, err := f(...)`: an effect; the call is recorded
+		if len(x.Lhs) > 2 && len(x.Rhs) == 1 {
+			if c, ok := x.Rhs[0].(*ast.CallExpr); ok {
+				if id, isId := x.Lhs[len(x.Lhs)-1].(*ast.Ident); isId && (id.Name == "err" || id.Name == "_") {
+					return "DCall " + q(t.render(c))
+				}
+			}
+		}
 	case *ast.DeclStmt:
 		// `var x bool` without a value: x is false from here on (it may be tested)
 		if gd, ok := x.Decl.(*ast.GenDecl); ok && gd.Tok == token.VAR && len(gd.Specs) == 1 {
@@ -124,7 +142,24 @@ func (t *decTr) stmt(s ast.Stmt) string {
 				return ""
 			}
 		}
+	case *ast.ForStmt:
+		// for { body }: a loop that only a return (or break) ends: `DRange "_" "forever"` — the environment
+		// says how many iterations are looked at
+		if x.Init == nil && x.Cond == nil && x.Post == nil {
+			return "DRange " + q("_") + " " + q("forever") + " " + t.stmts(x.Body.List)
+		}
 	case *ast.IfStmt:
+		if x.Init != nil {
+			// if init; cond { ... }: the init statement, then the if
+			init := t.stmt(x.Init)
+			y := *x
+			y.Init = nil
+			rest := t.stmt(&y)
+			if init == "" {
+				return rest
+			}
+			return init + "; " + rest
+		}
 		if x.Init == nil {
 			els := "[]"
 			switch e := x.Else.(type) {
